@@ -46,14 +46,14 @@ def session(inputs, html=False):
 def w_c18(seed):
     rnd = random.Random(seed)
     ops_all = ["push_front", "push_back", "tail", "clone", "head", "len", "eq", "drop"]
-    for trial in range(400):
+    for trial in range(1500):
         handles = ["a"]
         prog = ["new a"]
         for step in range(rnd.randint(3, 14)):
             op = rnd.choice(ops_all)
             h = rnd.choice(handles)
             if op in ("push_front", "push_back"):
-                prog.append(f"{op} {h} {rnd.choice(['1', '2', '3', 'NaN', '0', '-0'])}")
+                prog.append(f"{op} {h} {rnd.choice(['1', 'NaN', '0', '-0', '0', '-0'])}")
             elif op == "clone" and len(handles) < 4:
                 n = "abcd"[len(handles)]
                 handles.append(n)
@@ -66,7 +66,7 @@ def w_c18(seed):
         rc, out = drive(["listops"], text)
         if rc != 0 or "MISMATCH" in out:
             return {"found": True, "kind": "listops", "input": text, "output": out[-1500:], "cmd": f"{BIN} listops", "stdin": text}
-    return {"found": False, "note": "400 random op sequences over <=4 handles of NumbatList<f64> agree with the Vec model"}
+    return {"found": False, "note": "1500 random op sequences over <=4 handles of NumbatList<f64> agree with the Vec model"}
 
 
 # ---------------------------------------------------------------- C06 / C02
